@@ -145,6 +145,329 @@ class Rules:
             self.r_emit_rules(I, seg)
             self.r_internal_errors(I, seg)
             self.r_ckpt(I, seg)
+            self.r_section(I, seg)
+            self.r_retype(I, seg)
+            self.r_nesting_flush(I, seg)
+            self.r_mark_ws(I, seg)
+            self.r_delim_shape(I, seg)
+            self.r_expect_table(I, seg)
+
+    # ------------------------------------------------------------------
+    def local_names(self, fname):
+        """local id -> name for a function body (patterns and params, closures included)."""
+        c = self.__dict__.setdefault("_lnames", {})
+        if fname not in c:
+            m = {}
+            b = self.fx.bodies.get(fname)
+            if b:
+                for p in b["params"]:
+                    for node, _ in F.walk(p):
+                        if node.get("k") == "Bind":
+                            m[node["id"]] = node["name"]
+                for node, _ in F.walk(b["hir"]):
+                    if node.get("k") == "Bind":
+                        m[node["id"]] = node["name"]
+            c[fname] = m
+        return c[fname]
+
+    def token_start_pos(self, seg, upto_index):
+        """Position label of the governing start_token (last cur_token_byte_offset write before index)."""
+        evs = seg.events
+        for i in range(upto_index - 1, -1, -1):
+            e = evs[i]
+            if e.kind == "cur_token_write" and e.d.get("field") == "cur_token_byte_offset":
+                from . import lea_prims
+                sn = lea_prims.snap_of(e.d.get("value"))
+                return sn[2] if sn else None
+        return None
+
+    # -- R-SECTION: literal sections are anchored at the token start and end at the closer --------
+    def r_section(self, I, seg):
+        from . import lea_prims
+        st = seg.st
+        evs = seg.events
+        for idx in range(seg.start, len(evs)):
+            e = evs[idx]
+            if e.kind != "add_literal" or e.d.get("owner") != seg.name:
+                continue
+            t = e.d.get("text")
+            if not (isinstance(t, Term) and t.op == "str_slice"):
+                continue   # a decoded value (hex literal), not a source section
+            fnk = short_fn(seg.name)
+            self.bump("R-SECTION", "sections", self.sites.key(e))
+            start, end = lea_prims.snap_of(t.args[1]), lea_prims.snap_of(t.args[2])
+            tokpos = self.token_start_pos(seg, idx)
+            # first section of this token?
+            first = True
+            for j in range(idx - 1, -1, -1):
+                x = evs[j]
+                if x.kind == "add_literal":
+                    tx = x.d.get("text")
+                    if isinstance(tx, Term) and tx.op == "str_slice":
+                        first = False
+                        break
+                if x.kind == "cur_token_write" and x.d.get("field") == "cur_token_byte_offset":
+                    break
+            widened = False
+            for j in range(idx - 1, -1, -1):
+                x = evs[j]
+                if x.kind == "loop_widen":
+                    widened = True
+                    break
+                if x.kind == "cur_token_write" and x.d.get("field") == "cur_token_byte_offset":
+                    break
+            if first and not widened and start is not None and tokpos is not None and start[3] == 0:
+                strm = start[1]
+                ok = start[2] == tokpos
+                why = "first literal section starts at the token start"
+                if not ok and start[2] == tokpos + 1:
+                    cf = st.cs.get(("LA", strm, tokpos))
+                    if cf is not None and cf.inc is not None and cf.inc <= {"'", '"'}:
+                        ok = True
+                        why = "first literal section starts right after the opening quote"
+                I.ob("R-SECTION", "%s|ANCHOR" % fnk, ok, self.sites.where(e),
+                     why if ok else
+                     "the first literal section of the token starts at the scanner's entry offset, %s position label(s) after "
+                     "the token start: characters the dispatcher already consumed are missing from the unquoted payload; conditions: %s"
+                     % (start[2] - tokpos, "; ".join(st.conds[-4:])[:240]))
+            if end is not None and end[3] < 0:
+                # `current offset - k`: the k characters just consumed must be the closing delimiter,
+                # i.e. equal to the opening quote of this token
+                k = -end[3]
+                strm = end[1]
+                ok = tokpos is not None
+                opener = st.cs.get(("LA", strm, tokpos)) if tokpos is not None else None
+                for i in range(1, k + 1):
+                    cf = st.cs.get(("LA", strm, end[2] - i))
+                    if cf is None or cf.inc is None or not (cf.inc <= {"'", '"'}) or opener is None or opener.inc is None or not (cf.inc <= opener.inc):
+                        ok = False
+                I.ob("R-SECTION", "%s|END" % fnk, ok, self.sites.where(e),
+                     "section end = current offset - %d and the character(s) just consumed are the closing quote" % k if ok else
+                     "section end is taken as `current offset - %d` but the character(s) consumed right before are not the closing "
+                     "quote on this path (text after the quote leaks into the payload or the quote is cut); conditions: %s"
+                     % (k, "; ".join(st.conds[-5:])[:260]))
+
+    # -- R-RETYPE-GUARD: a retyping write to the last token is guarded through the same accessor class --
+    def r_retype(self, I, seg):
+        st = seg.st
+        evs = seg.events
+        for idx in range(seg.start, len(evs)):
+            e = evs[idx]
+            if e.kind != "lasttok_write" or e.d.get("owner") != seg.name:
+                continue
+            if e.d.get("field") != "token_type":
+                continue
+            acc, ep = e.d.get("accessor"), e.d.get("epoch")
+            guarded = False
+            for j in range(idx - 1, -1, -1):
+                x = evs[j]
+                if x.kind == "lookbehind" and x.d.get("epoch") == ep:
+                    if x.d.get("accessor") == acc:
+                        guarded = True
+                        break
+                if x.kind in ("emit", "insert_token", "buffer_rollback"):
+                    break
+            if not guarded:
+                # tested through the mutable reference itself (closure over last_token_info_*_mut)
+                t = Term("lasttok.token_type", (Const("int", ep),))
+                f = st.vfacts.get(t.key())
+                guarded = f is not None and f[0] is not None
+            key = "%s|%s" % (short_fn(seg.name), acc)
+            self.bump("R-RETYPE-GUARD", "writes", key)
+            I.ob("R-RETYPE-GUARD", key, guarded, self.sites.where(e),
+                 "token retyped through last_token_info%s_mut() after a type test through the same accessor" % ("_on_default_channel" if acc == "default" else "") if guarded else
+                 "the last token (accessor '%s') is retyped, but the type test that guards it looked at a different token "
+                 "(other accessor) or is missing: hidden/comment tokens in between make them differ" % acc)
+
+    # -- R-NESTING-FLUSH ------------------------------------------------------------------------
+    def r_nesting_flush(self, I, seg):
+        """Scanners that count parentheses locally must write the count back (or pop) on every exit."""
+        if seg.out.kind != "val":
+            return
+        b = self.fx.bodies.get(seg.name)
+        if b is None:
+            return
+        info = self.__dict__.setdefault("_nest", {})
+        if seg.name not in info:
+            # the local counter: an integer local that is +=1 / -=1 in the body, in a function that also
+            # contains a closure updating `pnl` of the top mode
+            ids = set()
+            writes_pnl = False
+            for node, par in F.walk(b["hir"]):
+                if node.get("k") == "AssignOp" and node.get("op") in ("AddAssign", "SubAssign"):
+                    l = F.strip(node["l"])
+                    r = F.lit_of(node["r"])
+                    if l.get("k") == "Path" and "local" in l.get("res", {}) and r and r[1] == 1:
+                        ids.add(l["res"]["local"])
+                if node.get("k") == "Bind" and node.get("name") == "pnl" and "Mut" in (node.get("mode") or "") or \
+                        (node.get("k") == "Struct" and any(f.get("name") == "pnl" and f.get("pat", {}).get("k") == "Bind" for f in node.get("fields", []) if "pat" in f)):
+                    writes_pnl = True
+            info[seg.name] = ids if writes_pnl else set()
+        ids = info[seg.name]
+        if not ids:
+            return
+        st = seg.st
+        evs = seg.events[seg.start:]
+        leave = evs[-1] if evs and evs[-1].kind == "leave" else None
+        frame = leave.d.get("frame") if leave is not None else None
+        if frame is None:
+            return
+        popped = any(e.kind == "pop" for e in evs)
+        updated = any(e.kind == "mode_update" and "pnl" in [str(x) for x in (e.d.get("path") or ())] for e in evs)
+        key = "%s|exit" % short_fn(seg.name)
+        self.bump("R-NESTING-FLUSH", "scanners", short_fn(seg.name))
+        for lid in ids:
+            v = frame.get(lid)
+            if v is None:
+                continue
+            zero = isinstance(v, Const) and v.v == 0
+            if not zero and not isinstance(v, Const):
+                k = ("eq",) + tuple(sorted([repr(v.key()), repr(Const("int", 0).key())]))
+                zero = st.bfacts.get(k) is True
+            ok = popped or updated or zero
+            I.ob("R-NESTING-FLUSH", key, ok, F.file_line(b["span"]),
+                 "exit path pops the mode, stores the parenthesis count into it, or the count is provably 0" if ok else
+                 "exit path neither pops the mode nor stores local parenthesis count %r into it, and the path does not imply "
+                 "the count is 0: the nesting level of the argument is lost; conditions: %s" % (v, "; ".join(st.conds[-5:])[:260]))
+
+    # -- R-MARK-WS: a pending whitespace mark only spans whitespace ----------------------------------
+    def mark_local(self, fname):
+        c = self.__dict__.setdefault("_marks", {})
+        if fname not in c:
+            res = None
+            b = self.fx.bodies.get(fname)
+            if b:
+                binds = {}
+                for node, par in F.walk(b["hir"]):
+                    if node.get("k") in ("LetCond", "Let") and node.get("init") is not None:
+                        p = node.get("pat", {})
+                        init = F.strip(node["init"])
+                        if p.get("k") == "TupleStruct" and len(p.get("pats", [])) == 1 and p["pats"][0].get("k") == "Bind" \
+                                and init.get("k") == "Path" and "local" in init.get("res", {}):
+                            binds[p["pats"][0]["id"]] = init["res"]["local"]
+                for node, par in F.walk(b["hir"]):
+                    if node.get("k") == "MethodCall" and F.norm(node.get("def")) == "Lexer::emit_token_at_mark":
+                        a = F.strip(node["args"][-1])
+                        if a.get("k") == "Path" and a["res"].get("local") in binds:
+                            res = binds[a["res"]["local"]]
+            c[fname] = res
+        return c[fname]
+
+    def r_mark_ws(self, I, seg):
+        lid = self.mark_local(seg.name)
+        if lid is None:
+            return
+        st = seg.st
+        evs = seg.events[seg.start:]
+        # iterate over loop iterations: [loop_enter|loop_widen .. loop_back]
+        cur = []
+        for e in evs:
+            if e.kind in ("loop_enter", "loop_widen") and e.fn == seg.name:
+                cur = []
+            elif e.kind == "consume":
+                cur.append(e)
+            elif e.kind == "loop_back" and e.fn == seg.name:
+                frame = e.d.get("frame") or {}
+                m = frame.get(lid)
+                live = m is not None and not (isinstance(m, Enum) and m.variant == "None")
+                if live and isinstance(m, Term):
+                    f = st.vfacts.get(m.key())
+                    if f is not None and f[0] is not None and set(f[0]) == {"None"}:
+                        live = False   # the path established that the mark is None
+                if live:
+                    bad = None
+                    for c in cur:
+                        chars = c.d.get("chars")
+                        if chars is None:
+                            bad = c
+                            break
+                        for ch in chars:
+                            if st.cf(ch).decide(("p", "is_whitespace")) is not True:
+                                bad = c
+                                break
+                        if bad:
+                            break
+                    key = "%s|iteration" % short_fn(seg.name)
+                    self.bump("R-MARK-WS", "scanners", short_fn(seg.name))
+                    I.ob("R-MARK-WS", key, bad is None, self.sites.where(bad) if bad else "",
+                         "while a whitespace mark is pending, the iteration consumed only whitespace" if bad is None else
+                         "a scanner iteration consumes a non-whitespace character (%s) and leaves the pending whitespace mark "
+                         "set: the hidden WS token emitted at the mark will contain it; conditions: %s"
+                         % (self.sites.key(bad), "; ".join(st.conds[-4:])[:240]))
+                cur = []
+
+    # -- R-DELIM-SHAPE: delimited tokens carry non-overlapping opener and closer ---------------------
+    DELIMS = {"CStyleComment": ("/*", "*/"), "MacroComment": ("%*", ";")}
+
+    def r_delim_shape(self, I, seg):
+        st = seg.st
+        evs = seg.events
+        for idx in range(seg.start, len(evs)):
+            e = evs[idx]
+            if e.kind != "emit" or e.d.get("owner") != seg.name:
+                continue
+            ts = variant_set(I, st, e.d["type"])
+            if not ts or len(ts) != 1:
+                continue
+            t = next(iter(ts))
+            if t not in self.DELIMS:
+                continue
+            opener, closer = self.DELIMS[t]
+            # terminated path only: no Unterminated* error right after, and not at EOF
+            unterminated = False
+            for x in evs[idx + 1: idx + 40]:
+                if x.kind == "error" and "Unterminated" in repr(x.d.get("err")):
+                    unterminated = True
+            cons = []
+            for j in range(idx - 1, -1, -1):
+                x = evs[j]
+                if x.kind == "cur_token_write" and x.d.get("field") == "cur_token_byte_offset":
+                    break
+                if x.kind == "consume":
+                    cons.append(x)
+                if x.kind == "advance_at_eof":
+                    unterminated = True
+            cons.reverse()
+            key = "%s|%s" % (short_fn(seg.name), t)
+            self.bump("R-DELIM-SHAPE", "emissions", key)
+            if unterminated and t != "MacroComment":
+                continue
+
+            def known(c, lit):
+                chars = c.d.get("chars")
+                if not chars or len(chars) != 1:
+                    return False
+                cf = st.cs.get(chars[0].key())
+                return cf is not None and cf.inc == frozenset([lit])
+            ok = len(cons) >= len(opener) + (0 if unterminated else len(closer))
+            if ok:
+                ok = all(known(cons[i], opener[i]) for i in range(len(opener)))
+            if ok and not unterminated:
+                ok = all(known(cons[len(cons) - len(closer) + i], closer[i]) for i in range(len(closer)))
+            I.ob("R-DELIM-SHAPE", key, ok, self.sites.where(e),
+                 "%s token consumed its opener %r and closer %r at distinct positions" % (t, opener, closer) if ok else
+                 "%s is emitted on a path whose consumed text is not opener %r ... closer %r with disjoint delimiters "
+                 "(%d consumption steps since the token start); conditions: %s" % (t, opener, closer, len(cons), "; ".join(st.conds[-5:])[:260]))
+
+    # -- R-EXPECT-TABLE ------------------------------------------------------------------------------
+    def r_expect_table(self, I, seg):
+        if short_fn(seg.name) != "dispatch_macro_call_or_stat" or seg.out.kind != "val":
+            return
+        st = seg.st
+        evs = seg.events[seg.start:]
+        enter = evs[0]
+        kw = enter.d.get("args", [None, None])[1] if enter.kind == "enter" else None
+        kws = variant_set(I, st, kw) if kw is not None else None
+        if not kws:
+            I.ob("R-EXPECT-TABLE", "nonconst-keyword", False, "", "keyword argument of dispatch_macro_call_or_stat is not a constant set on a path")
+            return
+        pushes = [e.d.get("mode") for e in evs if e.kind == "push"]
+        seq = [abstract_mode(I, st, m) for m in reversed(pushes)]   # lexing order
+        for k in sorted(kws):
+            self.bump("R-EXPECT-TABLE", "keywords", k)
+            for clause, ok, why in expect_clauses(self, k, seq):
+                I.ob("R-EXPECT-TABLE", "%s|%s" % (k, clause), ok, F.file_line(self.fx.bodies[seg.name]["span"]),
+                     ("%s: %s" % (k, why)) if ok else "%s: %s; pre-loaded modes in lexing order: %s" % (k, why, " ".join(seq)))
 
     # -- R-PANIC: every reachable panic must be classified ----------------
     def r_panic(self, I, seg):
@@ -336,6 +659,89 @@ class Rules:
                 ok = prior != "none"
                 I.ob("R-CKPT", key + "|CK1", ok, self.sites.where(e),
                      "rollback() with prior state '%s'" % prior if ok else "rollback() without a live checkpoint -> InternalErrorMissingCheckpoint (9001)")
+
+
+def abstract_mode(I, st, m):
+    if not isinstance(m, Enum):
+        return "?"
+    v = m.variant
+    if v == "WsOrCStyleCommentOnly":
+        return "Ws"
+    if v == "ExpectSymbol":
+        t = variant_set(I, st, m.args[0]) if m.args else None
+        c = variant_set(I, st, m.args[1]) if len(m.args) > 1 else None
+        return "E(%s,%s)" % ("|".join(sorted(t)) if t else "?", "|".join(sorted(c)) if c else "?")
+    if v == "ExpectSemiOrEOF":
+        return "Semi"
+    return v
+
+
+FUNC_NOARG = {"KwmSysmexecdepth"}
+SCAN_SUBSTR = re.compile(r"^Kwm(Q|K|QK)?(Scan|Substr)$")
+
+
+def expect_clauses(R, kw, seq):
+    """Clauses of C10/C14 for keyword kw against the pre-loaded mode sequence (lexing order)."""
+    out = []
+    fx = R.fx
+    funcs = R.__dict__.get("_funcs")
+    if funcs is None:
+        # argument-taking built-in functions: subset variants below the macro statement range
+        a = fx.adts.get("token_type::TokenType")
+        discr = {v["name"]: v["discr"] for v in a["variants"]}
+        rng = None
+        for c in fx.bodies:
+            if c.endswith("MACRO_STAT_TOKEN_TYPE_RANGE"):
+                b = fx.bodies[c]
+                names = [F.const_of(x) for x, _ in F.walk(b["hir"]) if x.get("k") == "Path" and F.const_of(x)]
+                ds = [discr[n.split("::")[-1]] for n in names if n and n.split("::")[-1] in discr]
+                if ds:
+                    rng = min(ds)
+        funcs = set()
+        if rng is not None:
+            for n, d in discr.items():
+                if n.startswith("Kwm") and d < rng and n not in FUNC_NOARG:
+                    funcs.add(n)
+        R._funcs = funcs
+    core = [m for m in seq if m != "Ws"]
+    if kw in funcs:
+        ch = "HIDDEN" if kw in ("KwmStr", "KwmNrStr") else "DEFAULT"
+        ok = len(core) >= 1 and core[0] == "E(LPAREN,%s)" % ch
+        out.append(("LPAREN-FIRST", ok, "argument-taking built-in expects '(' first on channel %s" % ch if ok else
+                    "argument-taking built-in does NOT expect '(' first on channel %s (no MissingExpectedLParen / unbalanced call)" % ch))
+        depth = 0
+        bal = True
+        for m in core:
+            if m.startswith("E(LPAREN"):
+                depth += 1
+            elif m.startswith("E(RPAREN"):
+                depth -= 1
+                if depth < 0:
+                    bal = False
+        out.append(("PARENS-BALANCED", bal and depth == 0, "expected parentheses are balanced" if bal and depth == 0 else "expected '(' / ')' modes are not balanced"))
+    if SCAN_SUBSTR.match(kw):
+        ok = False
+        for i, m in enumerate(core):
+            if m == "MacroCallValue":
+                ok = i + 1 < len(core) and core[i + 1].startswith("E(COMMA,")
+                break
+        out.append(("COMMA-AFTER-FIRST-ARG", ok, "the first argument is followed by an expected ','" if ok else
+                    "the first argument of %scan/%substr is NOT followed by ExpectSymbol(COMMA): an omitted ',' is not diagnosed"))
+    if kw == "KwmLet":
+        ok = "MacroNameExpr" in core and "E(ASSIGN,DEFAULT)" in core and core.index("MacroNameExpr") < core.index("E(ASSIGN,DEFAULT)")
+        out.append(("ASSIGN-AFTER-NAME", ok, "name expression is followed by an expected '='" if ok else "no ExpectSymbol(ASSIGN) after the variable name"))
+    if kw in ("KwmCopy", "KwmSysmacdelete"):
+        ok = "MacroNameExpr" in core and "E(FSLASH,DEFAULT)" in core and core.index("MacroNameExpr") < core.index("E(FSLASH,DEFAULT)")
+        out.append(("FSLASH-AFTER-NAME", ok, "macro name is followed by an expected '/'" if ok else "no ExpectSymbol(FSLASH) after the macro name"))
+    if kw in ("KwmEnd", "KwmReturn", "KwmUntil", "KwmWhile", "KwmTo", "KwmBy", "KwmLet", "KwmPut", "KwmGoto", "KwmMend",
+              "KwmRun", "KwmSysmstoreclear", "KwmSysexec", "KwmCopy", "KwmSysmacdelete", "KwmSyscall", "KwmMacro",
+              "KwmAbort", "KwmDisplay", "KwmInput", "KwmSymdel", "KwmSyslput", "KwmSysrput", "KwmWindow"):
+        ok = len(core) >= 1 and core[-1] == "Semi"
+        out.append(("SEMI-LAST", ok, "the statement ends in an expected ';' or end of input" if ok else "the pre-loaded sequence does not end in ExpectSemiOrEOF: a missing ';' is not diagnosed"))
+    if kw in ("KwmUntil", "KwmWhile"):
+        ok = len(core) >= 4 and core[0] == "E(LPAREN,DEFAULT)" and "E(RPAREN,DEFAULT)" in core
+        out.append(("COND-PARENS", ok, "%until/%while condition is wrapped in expected parentheses" if ok else "%until/%while does not expect '(' ... ')' around its condition"))
+    return out
 
 
 def emit_owner(seg, e):
